@@ -156,6 +156,9 @@ RULES = {
                 '_arg_c adds to arctan(z2 / z1) is odd when Re z1 < 0 (arctan alone has a positive cosine, so exp(log z) = z and '
                 'the reduction to the complex logarithm at z2 = 0 need it) and zero when Re z1 > 0 or z1 = 0 (arctan(z2 / tiny) is '
                 'already +-pi/2 there; purely imaginary z1 is left out, it sits on the branch cut)',
+    'R-ELEMENTWISE': 'array arguments: every element of z ** p is the formal expression the scalar call gives for that element, and an '
+                     'element with z1^2 + z2^2 = 0 (the step x + ih + jh at x = 0) gets the value of the idempotent formula, z^p exactly '
+                     '- the singular fallback applies to exactly the masked elements (concrete sign / modulus representatives)',
     'R-STATE': 'results are functions of the current components only: after a write to the components (z[k] = v, through a '
                'slice wrapper z[a:b][k] = v, which shares storage, or into z.z1 directly) mod_c / log / a power of z equal those of a '
                'fresh object built from the same components (no memoised quantity survives a write)',
@@ -171,7 +174,7 @@ def run(ctx):
         'C01). Decided: the formal identity between every Bicomplex operation and the holomorphic extension defined by the '
         'idempotent decomposition, by abstract interpretation of the method bodies over symbolic components.')
     rep.assume('formal identities: regularisers (_TINY, clip) are dropped and the principal branch (Re z1 > 0) is taken')
-    mins = {'R-RING': 8, 'R-EXPPOLY': 6, 'R-LOG': 4, 'R-POW': 5, 'R-DIV': 3, 'R-DERIVED': 15, 'R-BRANCH': 8, 'R-STATE': 6, 'R-ALIASES': 4}
+    mins = {'R-RING': 8, 'R-EXPPOLY': 6, 'R-LOG': 4, 'R-POW': 5, 'R-DIV': 3, 'R-DERIVED': 15, 'R-BRANCH': 8, 'R-ELEMENTWISE': 2, 'R-STATE': 6, 'R-ALIASES': 4}
     for rid, text in RULES.items():
         rep.rule(rid, text, mins[rid])
     mc = ctx.repo.module('multicomplex')
@@ -181,6 +184,7 @@ def run(ctx):
     exppoly(ctx, mc)
     logs(ctx, mc)
     branch(ctx, mc)
+    elementwise(ctx, mc)
     state(ctx, mc)
     powers(ctx, mc)
     formal_level(ctx, mc)
@@ -476,6 +480,64 @@ def branch(ctx, mc):
                 ok, fact = False, {'raises': exc.exc_name, 'message': exc.msg[:120]}
             rep.check(ok, 'R-BRANCH', 'multicomplex.Bicomplex._arg_c', where, fact,
                       'odd multiple of pi for Re z1 < 0, none for Re z1 > 0 and for z1 = 0', label, key='branch')
+
+
+def elementwise(ctx, mc, rule='R-ELEMENTWISE'):
+    """z ** p on an array mixing regular and singular elements, against the scalar calls."""
+    rep = ctx.rep
+    where = where_of(mc, '__pow__')
+    elems = [(Poly.const(1) + I_ * Fr(1, 2), Poly.const(Fr(1, 3))),          # regular
+             (I_ * Fr(1, 2), Poly.const(Fr(1, 2))),                            # z1^2 + z2^2 = 0
+             (Poly.const(2) - I_, Poly.const(Fr(3, 2)))]                       # regular
+
+    def setup():
+        sq = {}
+
+        def hook(name, x):
+            # modulus of a regular element: sqrt of a concrete non-zero complex number stays a symbol, its magnitude (only
+            # compared with the 1e-15 threshold) is taken from the constant
+            if name == 'sqrt' and isinstance(x, Poly) and x.is_const() and not x.is_zero() and ndarr.concrete_real(x) is None:
+                nm = 'SQ[%r]' % (x,)
+                c = x.const_value()
+                sq[nm] = abs(complex(float(c.real().rational()), float(c.imag().rational()))) ** 0.5 if hasattr(c, 'real') else 1.0
+                return Poly.sym(nm)
+            if name in ('abs', 'absolute') and isinstance(x, Poly) and len(x.t) == 1:
+                (mono, cf), = x.t.items()
+                if len(mono) == 1 and mono[0][0] in sq and mono[0][1] == 1 and cf.is_rational():
+                    return Fr(sq[mono[0][0]]).limit_denominator(10 ** 6) * abs(cf.rational())
+            return NotImplemented
+        I, models = make_interp(ctx.repo, hook)
+        models.hooks['np.clip'] = lambda m, a, *args, **kw: a
+        return I, models
+    for p in (2, 3):
+        label = 'p=%d, z = [regular, singular, regular]' % p
+        try:
+            I, models = setup()
+            cref = I.get_global('multicomplex', 'Bicomplex')
+            Z = cref(Arr((3,), [e[0] for e in elems]), Arr((3,), [e[1] for e in elems]))
+            arr = I.binop(ast.Pow(), Z, p)
+            a1, a2 = I.getattr(arr, 'z1').items(), I.getattr(arr, 'z2').items()
+            problems = []
+            for k, (z1, z2) in enumerate(elems):
+                I2, models2 = setup()
+                cref2 = I2.get_global('multicomplex', 'Bicomplex')
+                sc = I2.binop(ast.Pow(), cref2(z1, z2), p)
+                s1, s2 = comps(sc)
+                if not (same(a1[k], s1) and same(a2[k], s2)):
+                    problems.append('element %d: array call gives %s, the scalar call %s' % (k, repr(a1[k])[:70], repr(s1)[:70]))
+            # exact value of the singular element
+            w1, w2 = elems[1]
+            for _ in range(p - 1):
+                w1, w2 = w1 * elems[1][0] - w2 * elems[1][1], w1 * elems[1][1] + w2 * elems[1][0]
+            if not (same(a1[1], w1) and same(a2[1], w2)):
+                problems.append('singular element: (%s, %s), exact z**%d is (%r, %r)' % (repr(a1[1])[:60], repr(a2[1])[:60], p, w1, w2))
+            rep.check(not problems, rule, 'multicomplex.Bicomplex.__pow__', where, {'problems': problems[:3]},
+                      'same expression as the scalar call for every element; exact power for the singular one', label, key='elementwise pow')
+        except InterpRaise as exc:
+            rep.violation(rule, 'multicomplex.Bicomplex.__pow__', where, {'raises': exc.exc_name, 'message': exc.msg[:120]},
+                          'an array power', label, key='elementwise raises')
+        except (AnalysisError, AlgebraError, TypeError, AttributeError) as exc:
+            rep.undecided(rule, 'multicomplex.Bicomplex.__pow__', {'cannot_evaluate': str(exc)[:200]}, label)
 
 
 def state(ctx, mc):
